@@ -366,6 +366,11 @@ typedef struct functab_t {
 
 #define BADFREC(r) ((r) == NULL || (r)->refcount == 0)
 
+/* id -> record conversions that also check the kind of the id: an id of another
+   kind (or interface) must never be used as a file or access record */
+#define HIfile_rec(id)   ((HAatom_group(id) == FIDGROUP) ? (filerec_t *)HAatom_object(id) : (filerec_t *)NULL)
+#define HIaccess_rec(id) ((HAatom_group(id) == AIDGROUP) ? (accrec_t *)HAatom_object(id) : (accrec_t *)NULL)
+
 /* --------------------------- Special Elements --------------------------- */
 /* The HDF tag space is divided as follows based on the 2 highest bits:
    00: Library reserved ordinary tags
